@@ -578,3 +578,51 @@ func genXWide(rng *rand.Rand, o GenOpts) *Batch {
 	}
 	return b
 }
+
+// TrimVectors removes vector field instances of the given field from the
+// documents for which counts(batch, doc) is true until exactly target vectors
+// of that field remain on those documents.  It reports whether the target was
+// reached (it is not when fewer than target vectors were there to begin with).
+// Used for vector counts next to 1000, where the class of the vector index
+// switches from exact to clustered.
+func TrimVectors(bs []*Batch, field string, counts func(batch, doc int) bool, target int) bool {
+	n := 0
+	entries := func(vf *VecField) int {
+		if vf.Dims == 0 {
+			return 0
+		}
+		return len(vf.Vec) / vf.Dims
+	}
+	for bi, b := range bs {
+		for di := range b.Docs {
+			if !counts(bi, di) {
+				continue
+			}
+			for vi := range b.Docs[di].Vecs {
+				if b.Docs[di].Vecs[vi].Name == field {
+					n += entries(&b.Docs[di].Vecs[vi])
+				}
+			}
+		}
+	}
+	for bi, b := range bs {
+		for di := range b.Docs {
+			if n == target {
+				return true
+			}
+			if !counts(bi, di) {
+				continue
+			}
+			keep := b.Docs[di].Vecs[:0]
+			for _, vf := range b.Docs[di].Vecs {
+				if k := entries(&vf); vf.Name == field && k > 0 && n-k >= target {
+					n -= k
+					continue
+				}
+				keep = append(keep, vf)
+			}
+			b.Docs[di].Vecs = keep
+		}
+	}
+	return n == target
+}
